@@ -21,6 +21,8 @@ pub enum Res {
     Exit(Option<String>),
     Error(String),
     Crash(String),
+    /// registers (true) or removes (false) the on_error command while the script runs, then continues
+    Handler(bool, Option<String>),
 }
 
 /// Decodes what a `res` invocation must answer from its received arguments; `jumped` = times this
@@ -49,6 +51,8 @@ pub fn decode(args: &[String], jumped: u32) -> (Res, bool) {
         "exit" => (Res::Exit(val(1)), false),
         "err" => (Res::Error(get(1)), false),
         "crash" => (Res::Crash(get(1)), false),
+        "reg" => (Res::Handler(true, val(1)), false),
+        "unreg" => (Res::Handler(false, val(1)), false),
         _ => (Res::Crash("bad res".into()), false),
     }
 }
@@ -57,7 +61,7 @@ pub fn decode(args: &[String], jumped: u32) -> (Res, bool) {
 struct C3 {
     jumps: HashMap<usize, u32>,
     on_error_calls: Vec<Vec<String>>,
-    /// answers of on_error: 0 continue, 1 exit, 2 crash, 3 error, 4 goto
+    /// answers of on_error: 0 continue, 1 exit, 2 crash, 3 error, 4 goto, 5 continue after writing the variable x
     on_error_answers: Vec<u8>,
 }
 
@@ -103,8 +107,23 @@ impl Command for ResCmd {
             Res::Exit(v) => CommandResult::Exit(v),
             Res::Error(m) => CommandResult::Error(m),
             Res::Crash(m) => CommandResult::Crash(m),
+            Res::Handler(on, v) => {
+                if on {
+                    let _ = c.commands.set(Box::new(OnErrorCmd));
+                } else {
+                    c.commands.remove("on_error");
+                }
+                CommandResult::Continue(v)
+            }
         }
     }
+}
+
+/// what the handler can observe of the variables when it is called (sorted, so comparable)
+fn seen_variables(vars: &HashMap<String, String>) -> String {
+    let mut v: Vec<String> = vars.iter().map(|(k, v)| format!("{}={:?}", k, v)).collect();
+    v.sort();
+    v.join(";")
 }
 
 fn on_error_answer(i: usize, answers: &[u8]) -> u8 {
@@ -132,12 +151,18 @@ impl Command for OnErrorCmd {
             h.trace.push(Event { cmd: "on_error".into(), args: c.arguments.clone(), line: c.line, out: None });
             note_invocation(h, c.variables, &c.env.halt);
         });
+        let seen = seen_variables(c.variables);
         let a = C3S.with(|s| {
             let mut s = s.borrow_mut();
             let i = s.on_error_calls.len();
-            s.on_error_calls.push(c.arguments.clone());
+            let mut rec = c.arguments.clone();
+            rec.push(seen);
+            s.on_error_calls.push(rec);
             on_error_answer(i, &s.on_error_answers)
         });
+        if a == 5 {
+            c.variables.insert("x".to_string(), "written by on_error".to_string());
+        }
         match a {
             1 => CommandResult::Exit(Some("7".into())),
             2 => CommandResult::Crash("on_error crashed".into()),
@@ -201,7 +226,7 @@ fn gen_program(t: &mut Tape, st: &mut Stats, max_lines: usize) -> Vec<Line> {
             ins.output = Some(t.pick(OUTS).to_string());
         }
         ins.command = Some(t.pick(&["res", "res", "r2", "hz::Res"]).to_string());
-        let rk = t.weighted(&[6, 3, 3, 1, 3, 1]);
+        let rk = t.weighted(&[6, 3, 3, 1, 3, 1, 1]);
         match rk {
             0 => {
                 let (f, v) = gen_val(t);
@@ -231,6 +256,10 @@ fn gen_program(t: &mut Tape, st: &mut Stats, max_lines: usize) -> Vec<Line> {
             }
             4 => {
                 ins.args = vec!["err".into(), t.pick(&["boom", "bad thing", "", "é"]).to_string()];
+            }
+            6 => {
+                let (f, v) = gen_val(t);
+                ins.args = vec![t.pick(&["reg", "unreg"]).to_string(), f, v];
             }
             _ => {
                 ins.args = vec!["crash".into(), t.pick(&["dead", "fatal error"]).to_string()];
@@ -315,7 +344,8 @@ fn set_out(vars: &mut HashMap<String, String>, out: &Option<String>, v: Option<S
     }
 }
 
-fn model(lines: &[Line], init: &HashMap<String, String>, on_error: Option<&[u8]>, source: &str, max_steps: usize) -> Option<ModelRun> {
+fn model(lines: &[Line], init: &HashMap<String, String>, handler_present: bool, answers: &[u8], source: &str, max_steps: usize) -> Option<ModelRun> {
+    let mut handler_present = handler_present;
     let mut labels: HashMap<String, usize> = HashMap::new();
     for (i, l) in lines.iter().enumerate() {
         if let Some(lb) = &l.ins.label {
@@ -428,10 +458,18 @@ fn model(lines: &[Line], init: &HashMap<String, String>, on_error: Option<&[u8]>
                     m.classes.push("error-right-after-jump");
                 }
                 set_out(&mut m.vars, &l.ins.output, Some("false".into()));
-                if let Some(answers) = on_error {
+                if handler_present {
                     let i = m.on_error_calls.len();
-                    m.on_error_calls.push(vec![msg, (pc + 1).to_string(), source.to_string()]);
-                    match on_error_answer(i, answers) {
+                    // the handler is called after 'false' was stored: that is what it sees, and what it writes stays
+                    m.on_error_calls.push(vec![msg, (pc + 1).to_string(), source.to_string(), seen_variables(&m.vars)]);
+                    let a = on_error_answer(i, answers);
+                    if a == 5 {
+                        m.vars.insert("x".to_string(), "written by on_error".to_string());
+                        if l.ins.output.as_deref() == Some("x") {
+                            m.classes.push("on_error-writes-the-failing-output-variable");
+                        }
+                    }
+                    match a {
                         1 => {
                             m.classes.push("on_error-exit");
                             m.outcome = Outcome::Fail(pc + 1);
@@ -451,6 +489,15 @@ fn model(lines: &[Line], init: &HashMap<String, String>, on_error: Option<&[u8]>
                 m.kinds.insert("crash");
                 m.outcome = Outcome::Fail(pc + 1);
                 return Some(m);
+            }
+            Res::Handler(on, v) => {
+                m.kinds.insert("continue");
+                if on != handler_present {
+                    m.classes.push(if on { "handler-registered-during-the-run" } else { "handler-removed-during-the-run" });
+                }
+                handler_present = on;
+                set_out(&mut m.vars, &l.ins.output, v);
+                pc += 1;
             }
         }
     }
@@ -479,13 +526,14 @@ pub fn reset_state(answers: Vec<u8>) {
 fn case_with(t: &mut Tape, st: &mut Stats, max_lines: usize) -> Verdict {
     let lines = gen_program(t, st, max_lines);
     // configuration
-    let on_error: Option<Vec<u8>> = match t.below(4) {
-        0 => None,
-        1 => Some(vec![0]),
-        2 => Some(vec![t.below(5) as u8]),
+    // the handler's answers, and whether it is registered when the run starts (it can be registered or removed later)
+    let handler_at_start = t.chance(3, 4);
+    let on_error: Vec<u8> = match t.below(3) {
+        0 => vec![0],
+        1 => vec![t.below(6) as u8],
         _ => {
             let n = 1 + t.below(3);
-            Some((0..n).map(|_| t.below(5) as u8).collect())
+            (0..n).map(|_| t.below(6) as u8).collect()
         }
     };
     let file_mode = t.chance(1, 4);
@@ -516,7 +564,7 @@ fn case_with(t: &mut Tape, st: &mut Stats, max_lines: usize) -> Verdict {
         None
     };
     let source = path.clone().unwrap_or_default();
-    let m = match model(&lines, &init, on_error.as_deref(), &source, 5000) {
+    let m = match model(&lines, &init, handler_at_start, &on_error, &source, 5000) {
         Some(m) => m,
         None => return Verdict::Discard("model step bound exceeded"),
     };
@@ -525,9 +573,9 @@ fn case_with(t: &mut Tape, st: &mut Stats, max_lines: usize) -> Verdict {
     }
     // run
     hz_reset();
-    reset_state(on_error.clone().unwrap_or_default());
+    reset_state(on_error.clone());
     let mut ctx = bare_context();
-    register(&mut ctx, on_error.is_some());
+    register(&mut ctx, handler_at_start);
     ctx.variables = init.clone();
     let out = match &path {
         Some(p) => run_file(p, ctx, 200_000, None),
@@ -540,7 +588,7 @@ fn case_with(t: &mut Tape, st: &mut Stats, max_lines: usize) -> Verdict {
     let oe_calls = C3S.with(|s| s.borrow().on_error_calls.clone());
     let detail = |what: &str, extra: serde_json::Value| {
         json!({
-            "script": text, "file_mode": file_mode, "on_error_answers": on_error, "initial_variables": init,
+            "script": text, "file_mode": file_mode, "on_error_registered_at_start": handler_at_start, "on_error_answers": on_error, "initial_variables": init,
             "mismatch": what, "detail": extra,
             "model_calls": m.calls.iter().map(|e| json!([e.line, e.args, e.out])).collect::<Vec<_>>(),
             "actual_calls": trace.iter().map(|e| json!([e.line, e.args, e.out])).collect::<Vec<_>>(),
@@ -599,7 +647,7 @@ fn case_with(t: &mut Tape, st: &mut Stats, max_lines: usize) -> Verdict {
         st.sample(|| json!({"script": tx, "result_kinds_executed": k, "steps": steps}));
     }
     let jump_or_error = m.kinds.contains("goto-label") || m.kinds.contains("goto-line") || m.kinds.contains("error");
-    Verdict::Pass(if m.kinds.len() >= 2 && jump_or_error { Some(fp(&(&text, &on_error, file_mode))) } else { None })
+    Verdict::Pass(if m.kinds.len() >= 2 && jump_or_error { Some(fp(&(&text, &on_error, handler_at_start, file_mode))) } else { None })
 }
 
 fn case_small(t: &mut Tape, st: &mut Stats) -> Verdict {
@@ -612,7 +660,7 @@ fn case_large(t: &mut Tape, st: &mut Stats) -> Verdict {
 pub fn property() -> Property {
     Property {
         id: "C03",
-        rule: "programs of 1..40 (thorough: ..120) lines over a scripted command whose result (continue/goto label/goto line/exit/error/crash, with or without value, with jump countdowns) is dictated by its arguments, with labels from a small pool (duplicates, undefined targets), forward/backward/out-of-range line jumps, unknown commands, arguments reading variables, optional on_error answering continue/exit/crash/error/goto, text or file mode; compared with an abstract machine transcribed from the statement: full call log (arguments, line index, output variable), on_error call log, final variables, Ok/Err with source line (and source file). Non-trivial: >=2 result kinds executed and >=1 jump or error; distinct by (script, configuration) hash",
+        rule: "programs of 1..40 (thorough: ..120) lines over a scripted command whose result (continue/goto label/goto line/exit/error/crash, with or without value, with jump countdowns) is dictated by its arguments, with labels from a small pool (duplicates, undefined targets), forward/backward/out-of-range line jumps, unknown commands, arguments reading variables, an on_error command (registered at the start or not, and registered / removed by the scripted command while the script runs) answering continue/exit/crash/error/goto or writing a variable, and recording the variables it sees when called, text or file mode; compared with an abstract machine transcribed from the statement: full call log (arguments, line index, output variable), on_error call log, final variables, Ok/Err with source line (and source file). Non-trivial: >=2 result kinds executed and >=1 jump or error; distinct by (script, configuration) hash",
         assumptions: &[
             "instructions with an output variable but no command, and exit values that are integers written with sign/space or outside i32, are not generated",
             "error messages are plain text (messages with expansion syntax belong to C10)",
@@ -625,7 +673,7 @@ pub fn property() -> Property {
                     Tier::Thorough => Plan::Random { cases: 20_000_000, max_len: 900 },
                 },
                 case: case_small,
-                min_classes: &[("continue-none-deletes-set-variable", 1000), ("backward-line-jump", 1000), ("out-of-range-jump", 500), ("duplicate-label-target", 500), ("on_error-crash", 200), ("error-right-after-jump", 300), ("file-mode", 1000)],
+                min_classes: &[("continue-none-deletes-set-variable", 1000), ("backward-line-jump", 1000), ("out-of-range-jump", 500), ("duplicate-label-target", 500), ("on_error-crash", 200), ("error-right-after-jump", 300), ("file-mode", 1000), ("handler-registered-during-the-run", 1000), ("handler-removed-during-the-run", 1000), ("on_error-writes-the-failing-output-variable", 50)],
             },
             Section {
                 name: "large-programs",
